@@ -392,7 +392,23 @@ func TestC15_P_ShardedDirs(t *testing.T) {
 					hist += faultyPast(t, st, rn, tr, names) + " "
 				}
 				for i := 0; i < nops; i++ {
-					switch rapid.IntRange(0, 3).Draw(t, "historyOp") {
+					switch rapid.IntRange(0, 5).Draw(t, "historyOp") {
+					case 4:
+						// drained the way a loop "until the iterator has nothing more" does it: one Next() past the end
+						hist += "drain+overread "
+						it := rn.MapIterator()
+						for !it.Done() {
+							_, _, _ = it.Next()
+						}
+						_, _, _ = it.Next()
+					case 5:
+						hist += "native-drain+overread "
+						if nd, ok := rn.(nativeDir); ok {
+							nit := nd.Iterator()
+							for k, _ := nit.Next(); k != nil; k, _ = nit.Next() {
+							}
+							nit.Next()
+						}
 					case 0, 1:
 						steps := rapid.IntRange(0, len(names)+1).Draw(t, "steps")
 						hist += fmt.Sprintf("iter(%d) ", steps)
